@@ -8,7 +8,6 @@ in the quick tier. `sanitizers`: the same engines re-run on a reduced budget und
 PROPS = {}
 
 PROPS["C19"] = {
-    "ready": False,  # not registered in MANIFEST.json until the known findings are triaged
     "title": "Model values: equality, ordering and hashing are mutually coherent",
     "level": "exploration",
     "design_ref": "DESIGN.md §3 C19",
@@ -78,8 +77,8 @@ PROPS["C02"] = {
     "technique": "runtime monitoring: replica fold of received map operations vs the lane's callback-recorded history (convergence at quiescence, per-key value order, clear epochs, take/drop at quiescent points)",
     "text": "Seeded conversations over three map lanes (HashMap<String,_>, BTreeMap<i32,_>, HashMap<i32,_>) with update/remove/clear by command and by handler over 2-5 colliding keys and take/drop between quiescent points. Oracle: the replica built from the operations a remote received equals the lane's map at exact quiescence for every link that was synced or predates the first change; per key the values seen are an in-order subsequence of the values the key held; no update from before a clear arrives after one from after it; take/drop leaves exactly the entries designated by the documented key order; a fresh syncing probe sees the fold of the callbacks.",
     "note": _AGENT_NOTE,
-    "runs": [{"engine": "agent"}],
-    "assumptions": ["values unique per case", "take/drop are checked only between two quiescent points so that the map before is known"],
+    "runs": [{"engine": "agent"}, {"engine": "uplinks"}, {"engine": "rawagent"}],
+    "assumptions": ["values unique per case", "take/drop are checked only between two quiescent points so that the map before is known", "uplinks: small-scope exhaustive runs of MapOperationQueue/EventQueue/WriteQueues (depth 7/8, 3 keys, epoch wrap via hook) and drop_or_take on both backings", "rawagent: harness lanes emit Recon-equal key spellings; replica keyed by parsed Value"],
 }
 PROPS["C03"] = {
     "title": "Sync gives a consistent snapshot, then a gap-free tail",
@@ -88,8 +87,8 @@ PROPS["C03"] = {
     "technique": "runtime monitoring: per-key interval oracle (state at `synced` must intersect the ticketed window [sync request, synced receipt]) + convergence afterwards",
     "text": "Seeded conversations with sync requests placed anywhere in a stream of updates, by remotes that linked first and by remotes that only sync, several concurrently, slow readers. At every `synced` frame each key of the remote's replica (value lane: the value) must be in a state the lane held, per its ticketed callback history, at some moment between the sync request and the receipt (windows interrupted by the remote's own unlink are skipped); every sync on a surviving link is answered; afterwards the C01/C02 convergence oracles apply to it and the other observers are checked unchanged.",
     "note": _AGENT_NOTE + " The interval test uses callback tickets, which lag the state change by at most one handler step, so a snapshot that is stale by exactly the change in progress at the request is accepted.",
-    "runs": [{"engine": "agent"}],
-    "assumptions": ["values unique per case"],
+    "runs": [{"engine": "agent"}, {"engine": "uplinks"}, {"engine": "rawagent"}],
+    "assumptions": ["values unique per case", "uplinks: every interleaving of push_operation/sync/pop on the real WriteQueues to depth 8/9 judged for linked, not-yet-linked and re-syncing observers", "rawagent: chunked and held sync answers from harness lanes"],
 }
 PROPS["C04"] = {
     "title": "Every uplink follows the WARP link state machine; no fabricated frames",
@@ -98,8 +97,8 @@ PROPS["C04"] = {
     "technique": "runtime monitoring: per (remote, lane) protocol state machine over received frames, count-matched against the remote's own requests; body provenance against the lane history; fault injection (dropped readers/remotes, agent stop)",
     "text": "Seeded conversations with link/sync/unlink/command envelopes in any order incl. repeats and unknown lanes, remotes that stall, drop their reader or both halves, agent stop. Oracle per (remote, lane): events and synced only inside a link; every `linked` answers a link or sync request of that remote; `synced` only with an unanswered sync request; `unlinked` outside a link only as lane-not-found for an unknown lane, one per link/sync request; no frame for a lane the remote never addressed; event bodies parse to states the lane produced (no empty, foreign or invented body); at agent stop every open link of a reading remote is closed by `unlinked` before its channel closes.",
     "note": _AGENT_NOTE + " A repeated explicit link on an open link is answered by another `linked` (count-matched); a sync whose answers straddle the remote's own unlink may re-link it (accepted).",
-    "runs": [{"engine": "agent"}],
-    "assumptions": ["lane failure is injected by the rawagent engine, not here"],
+    "runs": [{"engine": "agent"}, {"engine": "uplinks"}, {"engine": "rawagent"}],
+    "assumptions": ["uplinks: every push/push_special/replace_and_pop sequence on the real Uplinks to depth 5/6, frames really written and decoded", "rawagent: harness lanes know every byte they emitted (byte-for-byte bodies), inject lane failure (corrupt tag, truncated frame, closed writer), agent return and stop"],
 }
 
 PROPS["C12"] = {
@@ -137,4 +136,78 @@ PROPS["C05"] = {
     "note": _AGENT_NOTE + " The crash model is 'all tasks dropped between two polls' (what a panic or process kill does to the in-memory store contract); durability of a real on-disk store under process kill is C13's business.",
     "runs": [{"engine": "agent"}],
     "assumptions": ["store operations are atomic calls (the trait is synchronous)", "ids handed out by id_for survive the crash"],
+}
+
+PROPS["C14"] = {
+    "title": "Supply lanes, command lanes and agent-sent commands are never coalesced",
+    "level": "exploration",
+    "design_ref": "DESIGN.md §3 C14",
+    "technique": "runtime monitoring: exactly-once / in-order / no-loss oracles over unique items between producer-side records (handler pushes, send calls, envelopes sent) and consumer-side frames",
+    "text": "Real runtime + derived agent: a command lane handler pushes bursts of unique items (up to 900 at once) to a supply lane while remotes read slowly, stall, link and unlink: per remote no duplicate, push order, and every item pushed by a command requested after the remote's stable link began is present. Every command envelope sent to the command lane invokes its handler exactly once, per remote in send order. Handlers send commands to three targets (two lanes behind one remote host sharing a channel, one local) with send_command, Commander::send (overwritable) and send_queued; the harness serves LinkRequest::Commander with slow/stalled readers: per target nothing arrives twice or at the wrong target, order per sending path is kept, every send_queued command arrives, an overwritable one is missing only if a later command to the same target exists. The rawagent engine repeats supply bursts (2000 items) and command delivery with harness lanes that see the command frames directly.",
+    "note": _AGENT_NOTE,
+    "runs": [{"engine": "agent"}, {"engine": "rawagent"}],
+    "assumptions": ["items and command values are unique", "completeness is only demanded at exact quiescence with all readers released"],
+}
+
+PROPS["C20"] = {
+    "title": "Introspection reports the true number of links and counts every message",
+    "level": "exploration",
+    "design_ref": "DESIGN.md §3 C20",
+    "technique": "small-scope exhaustive execution of the real Links registry with reporters against a reference set of pairs; end-to-end runtime monitoring of reporter snapshots at exact quiescent points; concurrent counter stress under TSan/Miri",
+    "text": "Links registry (hook): every sequence to depth 5/6 and random sequences to depth 200 of register/insert/remove/remove_remote/remove_lane/remove_all_links/count_single/count_broadcast/targeted over 3 lanes x 4 remotes; after every operation each lane reader's link_count, the aggregate, linked_from/linked_to/is_linked and the running sum of event counts must equal the model. End to end (rawagent): the real runtime with NodeReporting and harness lanes; at each quiescent checkpoint (readers drained) every lane's and the aggregate's link_count must equal the number of remotes that can prove they hold a link (range for remotes whose reader was dropped), event counts are exact in emit-only phases, command counts cumulative; through link, unlink, remote disconnection, prune timeout, lane failure and stop. Concurrency: N counting threads against a snapshotting thread, sum of snapshots + final == sum of increments, under TSan (quick) and Miri (thorough).",
+    "note": "Trusted base: the reference set of (lane, remote) pairs, the harness lanes' own emission record, the paused clock as quiescence detector. A Synced response is counted as an event by the runtime and tolerated as such.",
+    "runs": [{"engine": "uplinks"}, {"engine": "rawagent"}],
+    "sanitizers": [
+        {"kind": "tsan", "engine": "uplinks", "args": ["--scale", "0.05", "--only", "counters-threads"], "quick": True, "timeout_s": 1800},
+        {"kind": "miri", "engine": "uplinks", "args": ["--scale", "0.05", "--threads", "1", "--only", "counters-threads"], "timeout_s": 3600},
+    ],
+    "assumptions": ["registration of a reporter only on link-free lanes (as the runtime does)", "remotes use unique routing ids"],
+}
+
+PROPS["C07"] = {
+    "title": "A shared downlink serves every consumer a complete, ordered session",
+    "level": "exploration",
+    "design_ref": "DESIGN.md §3 C07",
+    "technique": "runtime monitoring of the real Value/MapDownlinkRuntime between a simulated lane and 1-4 consumers: session-order, snapshot-window, contiguity and command-order oracles; exhaustive join-phase grid + seeded conversations",
+    "text": "Real Value/MapDownlinkRuntime between a harness lane model and 1-4 consumers attaching at any phase with all SYNC/KEEP_LINKED combinations over 4-4096-byte channels, with stalls, drops and a slow socket. Per consumer: session order linked (event)* [synced] (event)* unlinked, synced iff requested, state at synced within [attach, receipt], events contiguous and complete once owed, unlinked at close. On the socket: per-consumer command order (value at all, map per key and across clears), only superseded commands dropped, final state equals all commands. 640-case exhaustive join grid plus 200k random conversations per quick run; 4M thorough.",
+    "note": "Trusted base: the harness lane model (sequential; answers one sync request with one snapshot and one synced; sends events only after the link request), the harness decoders, a 1 ms sleep under a paused clock as quiescence test. tokio::select! choice inside the read task is sampled, not enumerated.",
+    "runs": [{"engine": "dlrt"}],
+    "assumptions": ["well-behaved remote lane", "disjoint keys per consumer on map lanes", "single-threaded cooperative scheduling"],
+}
+
+PROPS["C08"] = {
+    "title": "Downlink local state equals the fold of what it received",
+    "level": "exploration",
+    "design_ref": "DESIGN.md §3 C08",
+    "technique": "differential runtime monitoring of the stand-alone client downlink tasks and the agent-hosted downlinks against a reference fold; random + bounded-exhaustive notification sequences; greedy witness minimisation",
+    "text": "Runs the real client downlink tasks (DownlinkTask::run) and real agent-hosted value/map downlinks (derived agent under AgentRouteTask, links served by the harness) on the same generated and exhaustively enumerated (depth 4/5) legal notification sequences, under all four events_when_not_synced x terminate_on_unlinked settings, with local writes, take/drop, relinks and connection loss. At every callback the exposed state must equal a reference fold, callbacks must match notification order and old/new values, on_synced fires exactly once per link, nothing is dispatched before sync when suppressed, and the two callback logs must be equal on sequences without take/drop. Illegal sequences are run for panics and hangs only.",
+    "note": "Trusted base: frame encoders, byte_channel, the paused clock. Frames in the `legal` part are cut only in the header or between frames; body-splitting chunkings run in `legal-anycut`, where divergences at/after a split body are reported as body-split/* (the incremental Recon decoder's business, C09/C10). Take/drop callback shape is observed, not compared.",
+    "runs": [{"engine": "dlimpl"}],
+    "assumptions": ["keys i32, values u64, unique per case", "at most 3 links per script", "hosted side driven through the public LinkRequest channel"],
+}
+
+PROPS["C16"] = {
+    "title": "Form: typed, model and wire representations of a value all agree",
+    "level": "exploration",
+    "design_ref": "DESIGN.md §3 C16",
+    "technique": "randomised differential and round-trip monitoring on the real conversion functions over a battery of 118 Form types (75 derived) and mutated/foreign texts",
+    "text": "For 118 Form types (75 derived, covering tag, rename, header, header_body, attr, body, slot, skip, generics, nesting, collections; 43 built-ins) each generated instance is converted to Value and back through both API pairs and written/read as MessagePack; about 1.1 M (quick) / 45 M (thorough) further texts (valid, valid for another type, structure-mutated, token-mutated, random, crafted) test that parse_recognize::<T> and parse-to-Value followed by try_from_value agree on accept/reject and on the value. Printer faithfulness observed on the way is recorded under C09, not here.",
+    "note": "Trusted base: harness generators/mutators (inputs only), each type's PartialEq, Value's own equality (lenient across integer kinds), catch_unwind (a panic in any conversion is a violation).",
+    "runs": [{"engine": "form"}],
+    "assumptions": ["finite f64 only", "skipped fields hold Default", "no Option<Option<_>>", "comments disabled in the parser"],
+}
+
+PROPS["C11"] = {
+    "title": "WARP envelopes cross the socket unchanged and reach only their addressee",
+    "level": "exploration",
+    "design_ref": "DESIGN.md §3 C11",
+    "technique": "runtime monitoring: exhaustive pool + random round trips through the real envelope encoder/peeler; two real RemoteTasks over an in-memory web socket with uniquely tagged traffic; virtual-time deadlock detection; poll-level MultiReader driver with counting wakers; Miri + TSan on the multiplexer",
+    "text": "Real ReconEncoder output for every envelope kind x adversarial node/lane/body strings (1.1 M pool + 300k/10M random) is read back unchanged by the real header peeler. Real RemoteTasks over an in-memory web socket, with 1-6 agents and 1-6 downlinks plus commanders attaching, writing uniquely tagged envelopes and detaching under back-pressure, must deliver every envelope only to its addressee, unchanged, in per-source order, with loss only after a detach; 19 kinds of invalid frames must reach nobody and must not stop the task. MultiReader loses, duplicates and reorders nothing and starves no stream across the 64-stream bucket boundary (poll level and foreign-thread wake-ups).",
+    "note": "Trusted base: tokio duplex and paused clock, ratchet framing, byte_channel (C12), the raw message codecs (C10). Bodies are opaque text. select! fairness is sampled.",
+    "runs": [{"engine": "remote"}],
+    "sanitizers": [
+        {"kind": "tsan", "engine": "remote", "args": ["--scale", "0.05", "--only", "multi-reader"], "quick": True, "timeout_s": 1800},
+        {"kind": "miri", "engine": "remote", "args": ["--scale", "0.002", "--threads", "1", "--only", "multi-reader"], "timeout_s": 3600},
+    ],
+    "assumptions": ["names and bodies are valid UTF-8", "harness readers always read (stalls <= 20 ms virtual)", "socket buffers 64 B - 64 kB, registration buffers 1-8"],
 }
